@@ -12,6 +12,7 @@ import (
 	"path/filepath"
 	"sort"
 	"strings"
+	"sync/atomic"
 	"time"
 )
 
@@ -447,8 +448,11 @@ func runSolver(s Solver, file string, timeoutS int) (string, string, float64) {
 }
 
 // Solve races the solvers: z3-new first with a short budget, then all in parallel.
+var solveSeq int64
+
 func Solve(query string, scratchDir, name string, timeoutS int, getValues []string) SolveResult {
-	file := filepath.Join(scratchDir, sanitizeFile(name)+".smt2")
+	seq := atomic.AddInt64(&solveSeq, 1)
+	file := filepath.Join(scratchDir, fmt.Sprintf("%05d_%s.smt2", seq, sanitizeFile(name)))
 	q := query + "(check-sat)\n"
 	if len(getValues) > 0 {
 		q += "(get-value (" + strings.Join(getValues, " ") + "))\n"
